@@ -116,6 +116,8 @@ pub const SNIPPETS: &[&str] = &[
     "LOAD \"X\"", "SAVE \"X\"", "RUN \"X\"", "MID$(A$,2)=\"ZZ\"", "MID$(A$,1,1)=\"Q\"", "PRINT LEN(A$);MID$(A$,2,1);INSTR(A$,\"B\")", "PRINT TAB(5);1;SPC(2);POS(0)",
     "PRINT STRING$(3,65);CHR$(66);ASC(\"C\")", "PRINT VAL(\"1E2\");STR$(5);HEX$(255);OCT$(8)", "PRINT INT(2.5);FIX(-2.5);SGN(-1);ABS(-3);SQR(4)",
     "PRINT RND(-1);RND(1)", "A$=INKEY$", "PRINT DATE$;TIME$", "PRINT 1/0;1\\0", "PRINT 32767+1", "A%=40000", "PRINT \"A\"+1", "PRINT -(-32767-1)", "PRINT 2^15;2^-1;2^.5",
+    "PRINT \"日本語é😀\"", "A$=\"ßΩ\"", "PRINT \"é\":GOTO 20", "IF A$<>\"é\" THEN 20 ELSE 10", "PRINT \"😀\";:ON A GOSUB 100,200", "A$=\"日\":RESTORE 20", "MID$(A$,2)=\"é😀\"",
+    "INPUT \"é\";A$,B$", "B$=\"本\":GOSUB 100", "PRINT \"Ω\":RUN 20", "IF A$=\"日本\" GOTO 10",
     "A$=STRING$(200,\"é\"):A$=A$+A$", "GOSUB 10", "FOR I=1 TO 1E30", "WHILE 1", "GOTO 10:REM loop", "A=A+1:IF A<1000 THEN 10",
 ];
 
